@@ -244,8 +244,323 @@ pub(crate) fn r4_ol_prefix_is_max() {
     assert!(w == l0 || w == l1, "the width is attained by an end of the list");
 }
 
+// ---------------------------------------------------------------------
+// R9  tree_map_reduce: every child visited once, in order; reduction is
+//     post-order; Nothing contributes nothing (C01, C03)
+// ---------------------------------------------------------------------
+
+/// Fixed tree shape: 0 -> [1, 2]; 1 -> [3]; 2, 3 leaves.
+fn r9_children(n: u8) -> Vec<u8> {
+    match n {
+        0 => vec![1, 2],
+        1 => vec![3],
+        _ => Vec::new(),
+    }
+}
+
+struct R9Ctx {
+    /// per node: 0 = Nothing, 1 = Finished, 2 = PendingChildren
+    choice: [u8; 4],
+    /// order in which nodes were handed to process_node
+    visit: [u8; 5],
+    nvisit: usize,
+    /// order in which nodes were completed (Finished or constructed)
+    done: [u8; 5],
+    ndone: usize,
+    /// per node: how many child results its constructor received, and their sum
+    got_n: [u8; 4],
+    got_sum: [u8; 4],
+}
+
+fn r9_process(ctx: &mut R9Ctx, n: u8) -> Result<TreeMapResult<'static, R9Ctx, u8, u8>> {
+    ctx.visit[ctx.nvisit] = n;
+    ctx.nvisit += 1;
+    Ok(match ctx.choice[n as usize] {
+        0 => TreeMapResult::Nothing,
+        1 => {
+            ctx.done[ctx.ndone] = n;
+            ctx.ndone += 1;
+            TreeMapResult::Finished(n)
+        }
+        _ => TreeMapResult::PendingChildren {
+            children: r9_children(n),
+            cons: Box::new(move |ctx: &mut R9Ctx, cs: Vec<u8>| {
+                ctx.got_n[n as usize] = cs.len() as u8;
+                let mut sum = 0u8;
+                for c in cs.iter() {
+                    sum += *c;
+                }
+                ctx.got_sum[n as usize] = sum;
+                ctx.done[ctx.ndone] = n;
+                ctx.ndone += 1;
+                std::mem::forget(cs);
+                Ok(Some(n))
+            }),
+            prefn: None,
+            postfn: None,
+        },
+    })
+}
+
+#[cfg_attr(kani, kani::proof)]
+#[cfg_attr(kani, kani::unwind(6))]
+pub(crate) fn r9_tree_map_reduce_order() {
+    let c0: u8 = kani::any();
+    let c1: u8 = kani::any();
+    let c2: u8 = kani::any();
+    let c3: u8 = kani::any();
+    kani::assume(c0 <= 2 && c1 <= 2 && c2 <= 2 && c3 <= 2);
+    let ch = [c0, c1, c2, c3];
+    let mut ctx = R9Ctx {
+        choice: ch,
+        visit: [0xff; 5],
+        nvisit: 0,
+        done: [0xff; 5],
+        ndone: 0,
+        got_n: [0xff; 4],
+        got_sum: [0; 4],
+    };
+    let res = tree_map_reduce(&mut ctx, 0u8, r9_process);
+    let res = match res {
+        Ok(r) => r,
+        Err(_) => panic!("no error is ever raised by the callbacks"),
+    };
+    // ---- reference, written out for the fixed shape -----------------
+    // A node is visited iff all its ancestors chose PendingChildren.
+    let v1 = c0 == 2;
+    let v2 = c0 == 2;
+    let v3 = v1 && c1 == 2;
+    let vis = [true, v1, v2, v3];
+    // expected pre-order visit sequence 0,1,3,2 filtered by `vis`
+    let pre = [0u8, 1, 3, 2];
+    let mut ev = [0xffu8; 5];
+    let mut ne = 0;
+    let mut i = 0;
+    while i < 4 {
+        if vis[pre[i] as usize] {
+            ev[ne] = pre[i];
+            ne += 1;
+        }
+        i += 1;
+    }
+    assert!(ctx.nvisit == ne, "each reachable node is processed exactly once");
+    let j: usize = kani::any();
+    kani::assume(j < 5);
+    assert!(ctx.visit[j] == ev[j], "children are processed left to right, depth first");
+    // expected completion (post-order) 3,1,2,0 filtered by visited and not Nothing
+    let post = [3u8, 1, 2, 0];
+    let mut ed = [0xffu8; 5];
+    let mut nd = 0;
+    i = 0;
+    while i < 4 {
+        let n = post[i] as usize;
+        if vis[n] && ch[n] != 0 {
+            ed[nd] = post[i];
+            nd += 1;
+        }
+        i += 1;
+    }
+    assert!(ctx.ndone == nd);
+    assert!(ctx.done[j] == ed[j], "a parent is built after all of its children");
+    // each constructor received exactly the results of its non-Nothing children
+    let r = |n: usize| -> (u8, u8) {
+        if ch[n] != 0 { (1, n as u8) } else { (0, 0) }
+    };
+    if vis[1] && c1 == 2 {
+        assert!(ctx.got_n[1] == r(3).0 && ctx.got_sum[1] == r(3).1);
+    }
+    if c0 == 2 {
+        assert!(ctx.got_n[0] == r(1).0 + r(2).0 && ctx.got_sum[0] == r(1).1 + r(2).1);
+    }
+    assert!(res == if c0 == 0 { None } else { Some(0) });
+    kani::cover!(c0 == 2 && c1 == 2 && c2 == 1 && c3 == 0);
+    kani::cover!(c0 == 2 && c1 == 0 && c2 == 2);
+    kani::cover!(c0 == 1);
+}
+
+// ---------------------------------------------------------------------
+// R12  Config builders -> HtmlContext -> RenderOptions plumbing; width 0
+//      (C01, C10, C11, C15)
+// ---------------------------------------------------------------------
+
+#[cfg_attr(kani, kani::proof)]
+#[cfg_attr(kani, kani::unwind(5))]
+pub(crate) fn r12_config_plumbing() {
+    use crate::config::with_decorator;
+    let mut cfg = with_decorator(TrivialDecorator::new());
+    // expected option values, starting from the documented defaults
+    let mut e_max: Option<usize> = None;
+    let mut e_pad = false;
+    let mut e_over = false;
+    let mut e_min = MIN_WIDTH;
+    let mut e_raw = false;
+    let mut e_borders = true;
+    let mut e_wrap_links = true;
+    let mut e_foot = false;
+    let mut e_strike = true;
+    // three builder calls, each chosen symbolically with symbolic arguments
+    let mut k = 0;
+    while k < 3 {
+        let which: u8 = kani::any();
+        kani::assume(which < 9);
+        let n: usize = kani::any();
+        let b: bool = kani::any();
+        cfg = match which {
+            0 => {
+                e_pad = true;
+                cfg.pad_block_width()
+            }
+            1 => {
+                e_max = Some(n);
+                cfg.max_wrap_width(n)
+            }
+            2 => {
+                e_over = true;
+                cfg.allow_width_overflow()
+            }
+            3 => {
+                e_min = n;
+                cfg.min_wrap_width(n)
+            }
+            4 => {
+                e_raw = b;
+                e_borders = false; // raw mode implies no borders
+                cfg.raw_mode(b)
+            }
+            5 => {
+                e_borders = false;
+                cfg.no_table_borders()
+            }
+            6 => {
+                e_wrap_links = false;
+                cfg.no_link_wrapping()
+            }
+            7 => {
+                e_strike = b;
+                cfg.unicode_strikeout(b)
+            }
+            _ => {
+                e_foot = b;
+                cfg.link_footnotes(b)
+            }
+        };
+        k += 1;
+    }
+    let ctx = cfg.make_context();
+    assert!(ctx.max_wrap_width == e_max);
+    assert!(ctx.pad_block_width == e_pad);
+    assert!(ctx.allow_width_overflow == e_over);
+    assert!(ctx.min_wrap_width == e_min);
+    assert!(ctx.raw == e_raw);
+    assert!(ctx.draw_borders == e_borders);
+    assert!(ctx.wrap_links == e_wrap_links);
+    assert!(ctx.include_link_footnotes == e_foot);
+    assert!(ctx.use_unicode_strikeout == e_strike);
+    // a second context from the same config is identical (staged and one-shot routes agree)
+    let ctx2 = cfg.make_context();
+    assert!(ctx2.max_wrap_width == ctx.max_wrap_width && ctx2.raw == ctx.raw
+        && ctx2.min_wrap_width == ctx.min_wrap_width && ctx2.draw_borders == ctx.draw_borders
+        && ctx2.pad_block_width == ctx.pad_block_width && ctx2.wrap_links == ctx.wrap_links
+        && ctx2.allow_width_overflow == ctx.allow_width_overflow
+        && ctx2.include_link_footnotes == ctx.include_link_footnotes
+        && ctx2.use_unicode_strikeout == ctx.use_unicode_strikeout);
+    kani::cover!(e_raw && e_max.is_some());
+    kani::cover!(!e_raw && !e_borders);
+    std::mem::forget(cfg);
+    std::mem::forget(ctx);
+    std::mem::forget(ctx2);
+}
+
+/// Width 0 is rejected before anything is rendered, whatever the options.
+#[cfg_attr(kani, kani::proof)]
+#[cfg_attr(kani, kani::unwind(3))]
+pub(crate) fn r12_width_zero() {
+    let mut ctx = default_ctx();
+    ctx.allow_width_overflow = kani::any();
+    ctx.raw = kani::any();
+    ctx.pad_block_width = kani::any();
+    ctx.min_wrap_width = kani::any();
+    let tree = RenderTree(RenderNode::new(RenderNodeInfo::Break));
+    let r = tree.render_with_context(&mut ctx, 0, TrivialDecorator::new());
+    match r {
+        Err(Error::TooNarrow) => {}
+        _ => panic!("width 0 must give TooNarrow"),
+    }
+    kani::cover!(ctx.allow_width_overflow);
+    std::mem::forget(ctx);
+}
+
+fn default_ctx() -> HtmlContext {
+    HtmlContext {
+        style_data: Default::default(),
+        #[cfg(feature = "css")]
+        use_doc_css: false,
+        max_wrap_width: None,
+        pad_block_width: false,
+        allow_width_overflow: false,
+        min_wrap_width: 3,
+        raw: false,
+        draw_borders: true,
+        wrap_links: true,
+        include_link_footnotes: false,
+        use_unicode_strikeout: true,
+    }
+}
+
+// ---------------------------------------------------------------------
+// R14  SizeEstimate combinators: how minimum widths propagate (C11, C02)
+// ---------------------------------------------------------------------
+#[cfg_attr(kani, kani::proof)]
+pub(crate) fn r14_size_estimate_ops() {
+    let a = SizeEstimate { size: kani::any(), min_width: kani::any(), prefix_size: kani::any() };
+    let b = SizeEstimate { size: kani::any(), min_width: kani::any(), prefix_size: kani::any() };
+    kani::assume(a.size <= 1 << 40 && b.size <= 1 << 40 && a.min_width <= 1 << 40 && b.min_width <= 1 << 40);
+    // stacking blocks: sizes add, the widest minimum wins
+    let s = a.add(b);
+    assert!(s.size == a.size + b.size);
+    assert!(s.min_width >= a.min_width && s.min_width >= b.min_width);
+    assert!(s.min_width == a.min_width || s.min_width == b.min_width);
+    assert!(s.prefix_size == 0);
+    // a prefix next to its content: minimum widths add (prefix + content)
+    let h = a.add_hor(b);
+    assert!(h.size == a.size + b.size);
+    assert!(h.min_width == a.min_width + b.min_width);
+    assert!(h.prefix_size == 0);
+    // column-wise maximum
+    let m = a.max(b);
+    assert!(m.size >= a.size && m.size >= b.size && (m.size == a.size || m.size == b.size));
+    assert!(m.min_width >= a.min_width && m.min_width >= b.min_width);
+    assert!(m.min_width == a.min_width || m.min_width == b.min_width);
+    // identity element used by the folds
+    let z: SizeEstimate = Default::default();
+    let za = z.add(a);
+    assert!(za.size == a.size && za.min_width == a.min_width);
+    kani::cover!(a.min_width > b.min_width && a.size < b.size);
+}
+
+// ---------------------------------------------------------------------
+// R15  WhiteSpace modes (C12): which modes keep spaces, which wrap
+// ---------------------------------------------------------------------
+#[cfg_attr(kani, kani::proof)]
+pub(crate) fn r15_white_space_modes() {
+    let k: u8 = kani::any();
+    kani::assume(k < 3);
+    let ws = match k {
+        0 => WhiteSpace::Normal,
+        1 => WhiteSpace::Pre,
+        _ => WhiteSpace::PreWrap,
+    };
+    assert!(ws.preserve_whitespace() == (k != 0));
+    assert!(ws.do_wrap() == (k != 1));
+    let d: WhiteSpace = Default::default();
+    assert!(d == WhiteSpace::Normal);
+    kani::cover!(k == 2);
+}
+
 crate::verif_common::registry! {
     r1_cascade_pairs, r1_cascade_triples, r2_specificity_order, r2_specificity_add,
     r3_ol_prefix_total, r4_ol_prefix_is_max,
+    r9_tree_map_reduce_order, r12_config_plumbing, r12_width_zero,
+    r14_size_estimate_ops, r15_white_space_modes,
 }
 
